@@ -1256,6 +1256,14 @@ func (p *parser) parseBlock(block text.BlockReader, parent ast.Node, pc Context)
 			text = ast.NewTextSegment(diff)
 		} else {
 			text = ast.NewTextSegment(diff.TrimRightSpace(source))
+			if text.Segment.IsEmpty() {
+				// Trailing spaces may have already been flushed into the previous
+				// text when parsers triggered by a space exist.
+				if last, ok := parent.LastChild().(*ast.Text); ok && last.Segment.Stop == diff.Start &&
+					!last.IsRaw() && !last.SoftLineBreak() && !last.HardLineBreak() {
+					last.Segment = last.Segment.TrimRightSpace(source)
+				}
+			}
 		}
 		text.SetSoftLineBreak(lineBreakFlags&lineBreakSoft != 0)
 		text.SetHardLineBreak(lineBreakFlags&lineBreakHard != 0)
